@@ -177,6 +177,18 @@ CHECKS = {
             "assumptions": ["pool settings are fixed before Start (SetPool on a running pool is a reconfiguration, not covered)", "WorkerErrKill=1 so that two injected errors cross the limit", "TestKill stops the worker and reports WorkerKilled (what the real kill path does)", "go-cache (error TTL caches) and rpc.Mux.accept carry a verif-only hook each so that a bubble can finish (janitor goroutines end on request; no spinning on a closed listener)", "goroutines left blocked after the tear-down are counted (leaked_goroutines_runs), not judged"],
         },
     },
+    "C16": {
+        "pkg": "harness/c16",
+        "instr": {"features": ["net"], "pkgs": ["pkg/telemetry/dbg", "tools/debugger/server"], "inject": ["pkg/telemetry/dbg", "tools/debugger"], "substfile": "inpkg/subst/c16.json"},
+        "shards": {"quick": 16, "thorough": 16},
+        "gomaxprocs": 1,
+        "budget_s": {"quick": 280, "thorough": 2400},
+        "hard_timeout_s": {"quick": 900, "thorough": 3600},
+        "meta": {
+            "rule": "real source machines (Multi, Require-rejected, Auto, mutually removing, error states; a handler that queues a nested mutation) with the real telemetry tracer, connected over the in-memory network to the real am-dbg RPC server feeding a real headless Debugger (tcell simulation screen), one testing/synctest bubble per execution; every mutation history of depth <= 3 (thorough 4) over 9 mutations, every 5th also spread over two client machines; per client: (a) every transition seen by an independent recording tracer has exactly one record, in order, carrying the machine's own time after it, accepted/type/auto/called; (b) TimeSum, TimeDiff, StatesAdded/Removed of every parsed record recomputed from consecutive records, error index = records with an active error state, newest first; (c) TxIndex, TxAtQueueTick (tick and tick+1), TxAtMachTime, HadErrSinceTx (distances 1,2,5) for every record vs linear scans; (d) for 6 toolbar filter combinations incl. none (toggled through ToggleTool like the UI): filtered view = matching records, from every cursor position ScrollToTx, one step forward, one step back: cursor in range, never on an excluded record, forward never moves back, forward+back returns, no error on the debugger machine; (e) export, import into a second debugger: same records, parsed records and error index",
+            "assumptions": ["queued auto records are not judged against the filters (their visibility depends on the transition that later executed them)", "touched states and log/reader entries are not compared", "check (Can*) transitions are not traced by default and not generated", "the telemetry client dials through a verif-only substitution (vnet instead of net/rpc's TCP dial)"],
+        },
+    },
     "C17": {
         "pkg": "harness/c17",
         "shards": {"quick": 1, "thorough": 1},
